@@ -41,6 +41,16 @@ impl LuaEngine {
         })
     }
     
+    /// A Lua state for scripts: only the base, table, string and math libraries are loaded.
+    /// Setting the globals `io`, `os`, `package` to nil is not enough in Lua 5.1 -- `module('io')`
+    /// fetches the library table back from the registry -- so those libraries are never opened.
+    fn new_sandboxed_state() -> Result<Lua> {
+        Lua::new_with(
+            mlua::StdLib::TABLE | mlua::StdLib::STRING | mlua::StdLib::MATH,
+            mlua::LuaOptions::default(),
+        ).map_err(|e| FerrousError::LuaError(e.to_string()))
+    }
+    
     /// Execute a Lua script using unified command processing
     pub fn eval(&self, script: &str, keys: Vec<Vec<u8>>, args: Vec<Vec<u8>>, ctx: &LuaCommandContext) -> Result<RespFrame> {
         let lua = self.create_lua_context(ctx)?;
@@ -105,7 +115,7 @@ impl LuaEngine {
     
     pub fn script_load(&self, script: &str) -> Result<String> {
         // Create a basic Lua context for syntax validation only
-        let lua = Lua::new();
+        let lua = Self::new_sandboxed_state()?;
         let globals = lua.globals();
         
         // Remove dangerous functions for sandboxing
@@ -169,7 +179,7 @@ impl LuaEngine {
     
     /// Create Lua context with unified redis.call implementation
     fn create_lua_context(&self, ctx: &LuaCommandContext) -> Result<Lua> {
-        let lua = Lua::new();
+        let lua = Self::new_sandboxed_state()?;
         
         // Remove dangerous functions for sandboxing
         let globals = lua.globals();
